@@ -418,7 +418,6 @@ def _trial_values(ctx, pop, G, nrep_list, var, handler, phase, names, envs, reps
     allzero = not any(x > 0 for v in var for x in v)
     Gmax = max(abs(x) for row in G for x in row)
     # -- values --------------------------------------------------------------------------
-    nparts = 0
     for j in range(t):
         sgn = 1 if handler is None else handler.signs[j]
         used = {}
@@ -441,7 +440,6 @@ def _trial_values(ctx, pop, G, nrep_list, var, handler, phase, names, envs, reps
                 require(d["phase"] == phase, PT + "second-call-reuses-draws",
                         f"table of call #{phase + 1} contains draw {d['id']} made during call #{d['phase'] + 1}")
                 used.setdefault(d["id"], []).append((i, e, p))
-            nparts = max(nparts, len(ex))
         if overflow:
             continue
         obs = sorted((tuple(sorted(recs)), draws[did]["var"][j]) for did, recs in used.items())
@@ -540,16 +538,19 @@ def run_truepheno(ctx, case):
             idx = [pop.taxa.index(nm) for nm in names]
         else:
             require(len(set(names)) == pop.n, P + "record-set", f"generated names {names}")
-            idx = [sorted(names).index(nm) for nm in names]
+            idx = None          # generated names: any naming is accepted, rows are matched by value below
         if pop.grp is not None:
             require("taxa_grp" in cols and df["taxa_grp"].tolist() == [pop.grp[i] for i in idx], P + "labels",
                     f"group labels {df['taxa_grp'].tolist() if 'taxa_grp' in cols else None} for taxa {names}")
         else:
             require("taxa_grp" not in cols or all(_isnull(g) for g in df["taxa_grp"].tolist()), P + "labels", "group labels invented")
-        for j, c in enumerate(tcols):
-            col = df[c].tolist()
+        got = [[df[c].tolist()[k] for c in tcols] for k in range(pop.n)]
+        if idx is None:
+            require(any(all(close(got[k], G[i]) for k, i in enumerate(perm)) for perm in itertools.permutations(range(pop.n))),
+                    P + "not-truth", f"records {got} are not the true values {G} under any naming")
+        else:
             for k, i in enumerate(idx):
-                require(close(col[k], G[i][j]), P + "not-truth", f"taxon {names[k]!r} trait {j}: {col[k]!r}, true value {G[i][j]!r}")
+                require(close(got[k], G[i]), P + "not-truth", f"taxon {names[k]!r}: {got[k]!r}, true values {G[i]!r}")
         require(close(tp.var_err, [0.0] * t), P + "var_err", f"var_err {tp.var_err!r}")
 
     ok = ctx.guard(body, case=case, sig_prefix="TruePhenotyping:")
